@@ -24,28 +24,26 @@ impl Default for GameHistory {
 
 impl fmt::Display for GameHistory {
     fn fmt(&self, f: &mut fmt::Formatter) -> fmt::Result {
-        if self.positions.is_empty() {
-            write!(f, "")
-        } else {
-            let mut game_history_string;
-            let first_move_string = self.moves[0].to_string(self.metadata[0]);
-            match self.positions[0].get_side_to_move() {
-                Color::White => game_history_string = format!("1.{first_move_string} "),
-                Color::Black => game_history_string = format!("1. ... {first_move_string}"),
-            }
+        let black_starting = self
+            .positions
+            .first()
+            .map_or(false, |p| p.get_side_to_move() == Color::Black);
 
-            let white_starting = self.positions[0].get_side_to_move() == Color::White;
-            for i in 1..self.moves.len() {
-                let mut next_move_string = self.moves[i].to_string(self.metadata[i]);
-                next_move_string = if (i % 2 != 0) ^ white_starting {
-                    format!("{}.{next_move_string} ", (i + 2) / 2)
-                } else {
-                    format!("{next_move_string} ")
-                };
-                game_history_string = format!("{game_history_string}{next_move_string}");
-            }
-            write!(f, "{game_history_string}")
+        let mut game_history_string = String::new();
+        for (i, (board_move, properties)) in self.moves.iter().zip(self.metadata.iter()).enumerate()
+        {
+            let move_string = board_move.to_string(*properties);
+            let ply = i + black_starting as usize; // plies counted from a white's move
+            let next_move_string = if ply % 2 == 0 {
+                format!("{}.{move_string} ", ply / 2 + 1)
+            } else if i == 0 {
+                format!("{}. ... {move_string} ", ply / 2 + 1)
+            } else {
+                format!("{move_string} ")
+            };
+            game_history_string = format!("{game_history_string}{next_move_string}");
         }
+        write!(f, "{game_history_string}")
     }
 }
 
